@@ -105,6 +105,14 @@ class Executor(ExecResolve):
                 k = self.w.kind_from_annotation(stmt.annotation)
                 if k and k[0] == "seq":
                     v = self.to_seq(v, k[1])
+            elif self.is_symseq(v):
+                # an annotation may widen the element type (List[Interface] = list_of_implementations)
+                k = self.w.kind_from_annotation(stmt.annotation)
+                if k and k[0] == "seq" and self.w.sort_of(k) == v.t.sort():
+                    ek_new, ek_old = self.w.base_kind(k[1]), self.w.base_kind(v.kind[1])
+                    if isinstance(ek_new, tuple) and ek_new[0] == "ref" and ek_new[1] and isinstance(ek_old, tuple) and ek_old[1] \
+                            and self.w.is_subclass(self.w.cls(ek_old[1]), self.w.cls(ek_new[1])):
+                        v = V((v.kind[0], ek_new), v.t, alias=v.alias)
             for s2 in self.assign(s, stmt.target, v):
                 yield s2, None
 
@@ -291,7 +299,8 @@ class Executor(ExecResolve):
         raise EngineError(f"iteration over {it}")
 
     def inv_env(self, st, it, i, extra=None):
-        env = dict(st.env)
+        env = dict(self.let_env)
+        env.update(st.env)
         env["_i"] = V("int", i)
         base = it
         if isinstance(it, VEnumerate):
@@ -342,6 +351,10 @@ class Executor(ExecResolve):
         # 3. arbitrary iteration
         def havocked(base_state, tag):
             s = base_state.fork()
+            # objects may have been allocated by earlier iterations: the clock is arbitrary but not earlier
+            s.clock0 = z3.Int(w.fresh_name("clock"))
+            s.clock_off = 0
+            s.assume(s.clock0 >= base_state.clock)
             for nme in names:
                 if nme in s.env:
                     hv = self.havoc_value(s.env[nme], f"{nme}@{label}")
@@ -373,9 +386,6 @@ class Executor(ExecResolve):
                 s.assume(z3.ForAll([r], z3.Implies(w.born(r) < base_state.clock, z3.Select(new, r) == z3.Select(old, r)),
                                    patterns=[z3.Select(new, r)]))
                 s.heap[key] = new
-            s.clock0 = z3.Int(w.fresh_name("clock"))
-            s.clock_off = 0
-            s.assume(s.clock0 >= base_state.clock)
             for key, val in list(s.cattr.items()):
                 pass
             s.path += tag
